@@ -56,6 +56,7 @@ def render : Ev → String
   | .closed => "closed"
   | .crash why => s!"crash {why}"
   | .setcall ok => s!"setcall {if ok then 1 else 0}"
+  | .snoop b => s!"snoop {hexOf b}"
 
 def parseEv (line : String) : Option Ev :=
   match NV.Proto.toks line with
@@ -72,6 +73,7 @@ def parseEv (line : String) : Option Ev :=
   | ["tx", h] => (unhex h).map .tx
   | ["cl", h] => (unhex h).map .cl
   | ["closed"] => some .closed
+  | ["snoop", h] => (unhex h).map .snoop
   | ["setcall", "1"] => some (.setcall true)
   | ["setcall", "0"] => some (.setcall false)
   | ["err"] => some .cberr
@@ -102,6 +104,7 @@ def parseOp (line : String) : Option Op :=
   | ["inputto"] => some (.inputto false)
   | ["inputto", "noecho"] => some (.inputto true)
   | ["serve"] => some .serve
+  | ["snoop", "on"] => some .snoopOn
   | _ => none
 
 /-- `cb <k> err|dest` lines -/
